@@ -177,6 +177,48 @@ def run(shard, ctx):
                         ctx.check("prefix: each accidental shifts every chord note by one semitone, letters kept", ok,
                                   {"key": kname, "numeral": pre(p) + s}, shifted(exp, p), repr(v), mechanism="prefix")
                         ctx.case(("prefix", kname, pre(p) + s))
+            # longer progressions, with the same degree more than once under different prefixes, cases and suffixes: each
+            # element is what the numeral denotes on its own
+            rng = ctx.rng("progression:" + kname)
+            for _ in range(12):
+                prog, exp = [], []
+                degs = [rng.randrange(7) for _ in range(rng.randint(1, 3))]
+                for _j in range(rng.randint(2, 7)):
+                    i = rng.choice(degs)
+                    p = rng.choice([0, 0, -1, 1, -2, 2])
+                    seventh = rng.random() < 0.4
+                    num = NUM[i] if rng.random() < 0.7 else NUM[i].lower()
+                    prog.append(pre(p) + num + ("7" if seventh else ""))
+                    exp.append(shifted(sev[i] if seventh else tri[i], p))
+                form = rng.choice(["list", "tuple", "iterator"])
+                arg = list(prog) if form == "list" else tuple(prog) if form == "tuple" else iter(list(prog))
+                st, v = ctx.call(P.to_chords, arg, kname)
+                ok = st == "ok" and isinstance(v, list) and len(v) == len(prog) and [sig(c) for c in v] == exp
+                ctx.check("diatonic: a list of numerals maps element-wise", ok, {"key": kname, "numerals": prog, "given_as": form}, exp,
+                          repr(v), mechanism="to_chords-progression")
+                # the same numerals one by one afterwards, and the string made of a list's items (and the other way round)
+                for one, e in zip(prog, exp):
+                    st, v1 = ctx.call(P.to_chords, one, kname)
+                    ctx.check("prefix: each accidental shifts every chord note by one semitone, letters kept",
+                              st == "ok" and isinstance(v1, list) and len(v1) == 1 and sig(v1[0]) == e, {"key": kname, "numeral": one,
+                              "after_progression": prog}, e, repr(v1), mechanism="prefix-after-progression")
+                ctx.case(("progression", kname, tuple(prog), form))
+            for whole, parts in (("IV", ["I", "V"]), ("VI", ["V", "I"]), ("II", ["I", "I"]), ("VII", ["V", "I", "I"]), ("bII", ["b", "II"])):
+                first_string = (len(kname) % 2 == 0)
+                calls = [("string", whole), ("list", list(parts))] if first_string else [("list", list(parts)), ("string", whole)]
+                for form, arg in calls:
+                    st, v = ctx.call(P.to_chords, arg, kname)
+                    if form == "string":
+                        i = NUM.index(whole.lstrip("b"))
+                        e = [shifted(tri[i], -1 if whole.startswith("b") else 0)]
+                        ok = st == "ok" and isinstance(v, list) and [sig(c) for c in v] == e
+                    elif "b" in parts:
+                        e, ok = [], st == "ok" and v == []
+                    else:
+                        e = [shifted(tri[NUM.index(x)], 0) for x in parts]
+                        ok = st == "ok" and isinstance(v, list) and [sig(c) for c in v] == e
+                    ctx.check("diatonic: a list of numerals maps element-wise", ok, {"key": kname, "numerals": arg, "given_as": form,
+                              "asked_first": calls[0][0]}, e, repr(v), mechanism="to_chords-string-vs-its-letters")
             for bad in ["IIII", "VV", "IIV", "VIIII", "IVI", "", "X", "m7", "7", "bb", "#", "VX"[:1] + "VV", "iiii", "vv"]:
                 st, v = ctx.call(P.to_chords, bad, kname)
                 ctx.check("diatonic: an unrecognised numeral yields the empty answer", st == "ok" and v == [],
